@@ -146,6 +146,16 @@ def run_case(spec, damages="all"):
             return cls.from_file("X", fname="c.toml")
 
         params, limits = spec["p"], spec.get("lim")
+        from .spec import LIMITS_DEFAULT as DOC_LIMITS
+
+        def defaults_intact(where):
+            if C.LIMITS_DEFAULT != DOC_LIMITS:
+                out.append(("C13", "documented-defaults-unchanged", "%s %s: components.LIMITS_DEFAULT is now %s" % (kind, where, {k: v for k, v in C.LIMITS_DEFAULT.items() if DOC_LIMITS.get(k) != v}), ""))
+                C.LIMITS_DEFAULT.clear()
+                C.LIMITS_DEFAULT.update(copy.deepcopy(DOC_LIMITS))
+                return False
+            return True
+
         lines = write_toml(kind, params, limits)
         text = "\n".join(lines) + "\n"
         # ---- intact file
@@ -163,6 +173,29 @@ def run_case(spec, damages="all"):
         except Exception as e:  # noqa
             out.append(("C13", "intact-file-loads", "%s %s raised %s(%s)" % (kind, json.dumps(params)[:200], type(e).__name__, e), ""))
             return out, stats, nt
+        if not defaults_intact("after loading the intact file"):
+            return out, stats, nt
+        # absolute check (not relative to the constructor twin): the loaded
+        # component shows the limits written in the file
+        if limits:
+            comp = load(text)
+            from .spec import APPLICABLE
+
+            sy = S.System("q", comp) if kind == "Source" else None
+            if sy is None:
+                sy = S.System("q", C.Source("S", vo=9.0))
+                if kind == "PMux":
+                    sy.add_comp(["S"], comp=comp)
+                else:
+                    sy.add_comp("S", comp=comp)
+            lrow = O.canon_params(sy.limits(), mask=False)["rows"]["X"]
+            unit = {"vi": "V", "vo": "V", "vd": "V", "ii": "A", "io": "A", "pi": "W", "po": "W", "pl": "W", "tr": "°C", "tp": "°C"}
+            for lk, lv in limits.items():
+                if lk in APPLICABLE[kind] and list(lv) != DOC_LIMITS[lk]:
+                    cell = lrow.get("%s  (%s)" % (lk, unit[lk]))
+                    if cell != list(lv):
+                        out.append(("C13", "file-limits-shown", "%s: limits() cell %s is %r, file says %r" % (kind, lk, cell, lv), ""))
+                        return out, stats, nt
         stats["intact_equal"] += 1
         absent = [k for k in DEFAULTS[kind] if k not in params]
         has_table = any(isinstance(v, dict) for v in params.values())
